@@ -55,7 +55,12 @@ class C13(F.Spec):
             auth = b"\0" * 16 if z in ("auth", "both") else rb(rng, 16)
             ops.append("flashset 0 " + (TAG7 + guid + auth + rb(rng, 100)).hex())
         elif kind == "valid":
-            ops.append("flashset 0 " + (TAG7 + bytes([1 + rng.getrandbits(7) for _ in range(32)]) + rb(rng, 918)).hex())
+            ident = bytearray(1 + rng.getrandbits(7) for _ in range(32))
+            if rng.random() < .5:
+                # identities are binary: zero bytes inside (also in front) are part of them
+                for _ in range(rng.randint(1, 3)):
+                    ident[rng.choice([0, 1, 3, 15, 16, 20, 31])] = 0
+            ops.append("flashset 0 " + (TAG7 + bytes(ident) + rb(rng, 918)).hex())
         elif kind == "v6":
             ops.append("flashfill 00")
             ops.append("flashset 0 " + (b"SUPLA\x06" + bytes([1 + rng.getrandbits(7) for _ in range(32)]) + rb(rng, 300)).hex())
